@@ -110,6 +110,9 @@ def register(reg):
         modifies=['self.g_file', 'self.g_resp', 'self.session.g_last_url'],
         ghost={('before', 'size = 0'): ['self.g_file = file', 'self.g_resp = resp']},
         ensures=[('target-file', 'self.g_file.g_name == filename'),
+                 # only a binary block response is written and counted; anything else (an HTML / text error page) is a refusal
+                 ('only-a-block-response-is-accepted', '"Content-Type" in self.g_resp.headers and '
+                                                       'lookup(self.g_resp.headers, "Content-Type") == "application/octet-stream"'),
                  # every attempt asks the daemon that is current at that attempt (fail-over moves url_index between attempts)
                  ('asks-the-current-daemon', 'self.session.g_last_url == self.urls[self.url_index] + rest_url'),
                  ('file-holds-exactly-this-attempts-body',
